@@ -1162,7 +1162,19 @@ fn try_read(fd: RawFd, buf: &mut [u8]) -> nix::Result<Option<usize>> {
     }
     // The socket is readable - but some other process might get there first.
     // We have to set an alarm() in case our read() gets stuck.
-    let oldh = unsafe { signal::signal(Signal::SIGALRM, SigHandler::Handler(timeout_handler)) }?;
+    // The handler must be installed without SA_RESTART (which signal() implies):
+    // otherwise the kernel restarts the read() after every alarm and a stolen
+    // token blocks this process for ever.
+    let oldh = unsafe {
+        signal::sigaction(
+            Signal::SIGALRM,
+            &signal::SigAction::new(
+                SigHandler::Handler(timeout_handler),
+                signal::SaFlags::empty(),
+                signal::SigSet::empty(),
+            ),
+        )
+    }?;
     const INTERVAL_VALUE: IntervalTimerValue = IntervalTimerValue {
         interval: Duration::from_millis(10),
         value: Duration::from_millis(10),
@@ -1174,7 +1186,7 @@ fn try_read(fd: RawFd, buf: &mut [u8]) -> nix::Result<Option<usize>> {
         Err(e) => Err(e),
     };
     helpers::set_interval_timer(IntervalTimer::Real, &IntervalTimerValue::default())?;
-    unsafe { signal::signal(Signal::SIGALRM, oldh) }?;
+    unsafe { signal::sigaction(Signal::SIGALRM, &oldh) }?;
     result
 }
 
